@@ -83,6 +83,10 @@ CATALOGUE = [
     # a void call is no argument; a namespace is no type
     ("arguments", "ival", "{ console.log(a.doIt()); 1 }"), ("arguments", "ival", "{ console.warn({I}, a.take({I_d})); 1 }"),
     ("arguments", "ival", "a.twice(a.doIt())"), ("arguments", "ival", "Math.max(a.doIt(), 1)"),
+    # a void call is no list element; a list without element type is nothing to print
+    ("operand-types", "ival", "{ let v = [a.doIt()]; 1 }"), ("operand-types", "ival", "{ [a.doIt(), a.doIt()]; 1 }"),
+    ("operand-types", "ival", "{ let v = [1, 2]; let w = [a.take({I_d})]; v[0] }"), ("arguments", "ival", "{ console.log([]); 1 }"),
+    ("arguments", "ival", "{ console.info({S}, []); 1 }"),
     ("assignment", "ival", "{ let v: Qt; 1 }"), ("assignment", "ival", "{ let v: Math; 1 }"), ("assignment", "ival", "{ let v: console; 1 }"),
     ("assignment", "ival", "{ let v: void; 1 }"), ("assignment", "ival", "{ let v: Qt = 1; v }"),
     # an inherited property keeps the type it has in the class that declares it
